@@ -125,6 +125,8 @@ def prior_sampling_sites(ctx, cg: CallGraph) -> Dict[Tuple[str, str], List[ast.C
     return result
 
 
+NOCOPY_FUNCS = {"np.asarray", "numpy.asarray", "np.asanyarray", "numpy.asanyarray", "torch.as_tensor", "torch.from_numpy", "np.ravel", "numpy.ravel", "np.atleast_1d", "np.atleast_2d",
+                "np.squeeze", "np.transpose"}
 INPLACE_FREE = {"requires_grad_", "share_memory_", "retain_grad"}  # in-place only on autograd / storage flags, not on values
 
 
@@ -173,6 +175,8 @@ def inplace_on_state_values(ctx, funcs=None):
                 return alias(e.func.value)
             if isinstance(e, _ast.IfExp):
                 return alias(e.body) or alias(e.orelse)
+            if isinstance(e, _ast.Call) and _U(e.func) in NOCOPY_FUNCS and e.args:
+                return alias(e.args[0])  # np.asarray / torch.as_tensor ... return their argument when nothing has to be converted
             if isinstance(e, _ast.Call) and isinstance(e.func, _ast.Name) and e.func.id in closures:
                 return any(alias(r) or (isinstance(r, _ast.Tuple) and any(alias(x) for x in r.elts)) for r in closure_ret(e.func.id) or [])
             return False
@@ -266,8 +270,6 @@ def refusal_side_conditions(cfg, raise_node, is_own, text, context=()):
     return out
 
 
-NOCOPY_FUNCS = {"np.asarray", "numpy.asarray", "np.asanyarray", "numpy.asanyarray", "torch.as_tensor", "torch.from_numpy", "np.ravel", "numpy.ravel", "np.atleast_1d", "np.atleast_2d",
-                "np.squeeze", "np.transpose"}
 NOCOPY_METHODS = {"reshape", "ravel", "view", "squeeze", "transpose", "swapaxes", "numpy", "to_numpy", "detach", "unsqueeze", "expand", "view_as", "t", "flatten_view",
                   # conversions that return `self` when there is nothing to convert
                   "to", "float", "double", "type", "type_as", "contiguous", "cpu", "cuda", "astype_nocopy", "requires_grad_", "as_subclass", "flatten",
